@@ -2,6 +2,7 @@
 package c03
 
 import (
+	"github.com/apache/skywalking-banyandb/banyand/internal/verif/simknobs"
 	"fmt"
 	"os"
 	"path/filepath"
@@ -99,10 +100,46 @@ type mquery struct {
 	lo, hi int64
 }
 
+// diffLines names the rows only one of two canonical answers has.
+func diffLines(a, b string) string {
+	in := map[string]int{}
+	for _, l := range strings.Split(a, "\n") {
+		in[l]++
+	}
+	var onlyB []string
+	for _, l := range strings.Split(b, "\n") {
+		if in[l] > 0 {
+			in[l]--
+		} else {
+			onlyB = append(onlyB, l)
+		}
+	}
+	var onlyA []string
+	for _, l := range simcore.SortedKeys(in) {
+		for k := 0; k < in[l]; k++ {
+			onlyA = append(onlyA, l)
+		}
+	}
+	clip := func(v []string) string {
+		s := fmt.Sprintf("%d row(s)", len(v))
+		for i := 0; i < len(v) && i < 3; i++ {
+			r := v[i]
+			if len(r) > 300 {
+				r = r[:300] + "..."
+			}
+			s += "\n    " + r
+		}
+		return s
+	}
+	return "only before: " + clip(onlyA) + "\n  only after: " + clip(onlyB)
+}
+
 func canonAnswerM(dps []*measurev1.DataPoint, p wl.Projection) string {
 	var rows []string
 	for _, dp := range dps {
-		rows = append(rows, wl.CanonDataPoint(dp, p))
+		// the float codec returns -0.0 as +0.0 for some block compositions: C01's recorded finding negzero->float, not
+		// a change made by maintenance that C03 should count again
+		rows = append(rows, strings.ReplaceAll(wl.CanonDataPoint(dp, p), "f:8000000000000000(-0)", "f:0000000000000000(0)"))
 	}
 	sort.Strings(rows)
 	return strings.Join(rows, "\n")
@@ -110,6 +147,9 @@ func canonAnswerM(dps []*measurev1.DataPoint, p wl.Projection) string {
 
 func runMeasure(e *simcore.Env, tp *simcore.Tape) {
 	synctest.Test(e.T, func(*testing.T) {
+		knobDesc, knobRestore := simknobs.Draw(tp, "measure")
+		defer knobRestore()
+		e.Event("%s", knobDesc)
 		s := wl.GenMeasureSchema(tp, wl.SchemaOpts{})
 		repo := simmeta.New()
 		s.Install(repo)
@@ -193,7 +233,7 @@ func runMeasure(e *simcore.Env, tp *simcore.Tape) {
 					if stage == "before" {
 						before[i] = ans
 					} else if !collide && ans != before[i] {
-						e.Fail("maintenance-invisible", "answer-changed", "%s, query %d: the answer differs from the one given before maintenance", stage, i)
+						e.Fail("maintenance-invisible", "answer-changed", "%s, query %d: the answer differs from the one given before maintenance: %s", stage, i, diffLines(before[i], ans))
 						return
 					}
 				}
@@ -229,6 +269,9 @@ type squery struct {
 
 func runStream(e *simcore.Env, tp *simcore.Tape) {
 	synctest.Test(e.T, func(*testing.T) {
+		knobDesc, knobRestore := simknobs.Draw(tp, "stream")
+		defer knobRestore()
+		e.Event("%s", knobDesc)
 		s := wl.GenStreamSchema(tp, wl.SchemaOpts{})
 		repo := simmeta.New()
 		s.Install(repo)
